@@ -1,1 +1,752 @@
-(** Proofs/CacheProofs.v — placeholder, to be written. *)
+(** Proofs/CacheProofs.v — invariants of the Cache.get / Cache.clear transition system,
+    each proved for one step and lifted to every schedule by induction; injectivity of
+    the pipeline-cache key (refuted in general, proved on '+'-free names / parents). *)
+From PV Require Import Cache.
+From Coq Require Import Lia.
+Open Scope string_scope.
+
+(** * The key function *)
+
+Lemma contains_app_plus a b : contains_char plus (a ++ "+" ++ b) = true.
+Proof. induction a as [|c a IH]; simpl in *; [reflexivity|]. rewrite IH. apply orb_true_r. Qed.
+Lemma join_inj_names p p' n n' :
+  contains_char plus n = false -> contains_char plus n' = false ->
+  p ++ "+" ++ n = p' ++ "+" ++ n' -> p = p' /\ n = n'.
+Proof.
+  revert p'. induction p as [|c p IH]; intros [|c' p'] Hn Hn' H; simpl in H.
+  - inversion H. auto.
+  - inversion H; subst. pose proof (contains_app_plus p' n') as E.
+    simpl in *. congruence.
+  - inversion H; subst. pose proof (contains_app_plus p n) as E.
+    simpl in *. congruence.
+  - inversion H; subst. destruct (IH p' Hn Hn' H2) as [-> ->]. auto.
+Qed.
+Lemma join_inj_parents p p' n n' :
+  contains_char plus p = false -> contains_char plus p' = false ->
+  p ++ "+" ++ n = p' ++ "+" ++ n' -> p = p' /\ n = n'.
+Proof.
+  revert p'. induction p as [|c p IH]; intros [|c' p'] Hp Hp' H; simpl in H.
+  - inversion H. auto.
+  - inversion H; subst. simpl in Hp'. discriminate.
+  - inversion H; subst. simpl in Hp. discriminate.
+  - inversion H; subst. cbn [contains_char] in Hp, Hp'.
+    apply orb_false_iff in Hp. apply orb_false_iff in Hp'.
+    destruct (IH p' (proj2 Hp) (proj2 Hp') H2) as [-> ->]. auto.
+Qed.
+
+Definition key_inj_on (P : req -> bool) : Prop :=
+  forall r r', P r = true -> P r' = true -> key_of r = key_of r' -> norm_req r = norm_req r'.
+
+Lemma key_nonempty c s n : pipeline_key (Some (String c s)) n = String c s ++ "+" ++ n.
+Proof. reflexivity. Qed.
+Opaque append.
+Lemma key_inj_names : key_inj_on name_plus_free.
+Proof.
+  intros [p n] [p' n']. unfold name_plus_free, key_of, norm_req. cbn [fst snd].
+  intros Hn Hn' H. apply negb_true_iff in Hn. apply negb_true_iff in Hn'.
+  destruct p as [[|c s]|], p' as [[|c' s']|]; cbn [pipeline_key truthy] in *; subst; try reflexivity.
+  - pose proof (contains_app_plus (String c' s') n') as E. congruence.
+  - pose proof (contains_app_plus (String c s) n) as E. congruence.
+  - destruct (join_inj_names _ _ _ _ Hn Hn' H) as [E ->]. rewrite E. reflexivity.
+  - pose proof (contains_app_plus (String c s) n) as E. congruence.
+  - pose proof (contains_app_plus (String c' s') n') as E. congruence.
+Qed.
+
+Lemma key_inj_parents : key_inj_on parent_plus_free.
+Proof.
+  intros [p n] [p' n']. unfold parent_plus_free, key_of, norm_req. cbn [fst snd].
+  intros Hp Hp' H.
+  destruct p as [[|c s]|], p' as [[|c' s']|]; try discriminate.
+  apply negb_true_iff in Hp. apply negb_true_iff in Hp'.
+  cbn [pipeline_key truthy] in *.
+  destruct (join_inj_parents _ _ _ _ Hp Hp' H) as [E ->]. rewrite E. reflexivity.
+Qed.
+Transparent append.
+
+Lemma key_injective_partial r r' :
+  (name_plus_free r = true /\ name_plus_free r' = true) \/
+  (parent_plus_free r = true /\ parent_plus_free r' = true) ->
+  key_of r = key_of r' -> norm_req r = norm_req r'.
+Proof.
+  intros [[A B]|[A B]] H; [apply key_inj_names|apply key_inj_parents]; assumption.
+Qed.
+
+Lemma key_injective_refuted :
+  exists r r', norm_req r <> norm_req r' /\ key_of r = key_of r'.
+Proof.
+  exists (Some "/x", "a+b"), (Some "/x+a", "b"). split; [discriminate|reflexivity].
+Qed.
+
+Lemma key_injective_refuted_noparent :
+  exists r r', norm_req r <> norm_req r' /\ key_of r = key_of r'.
+Proof.
+  exists (None, "q+r"), (Some "q", "r"). split; [discriminate|reflexivity].
+Qed.
+
+(** * Generic plumbing *)
+
+Lemma upd_same f t th : upd f t th t = th.
+Proof. unfold upd. now rewrite Nat.eqb_refl. Qed.
+
+Lemma upd_other f t th t' : t' <> t -> upd f t th t' = f t'.
+Proof. unfold upd. intros H. apply Nat.eqb_neq in H. now rewrite H. Qed.
+
+Lemma run_app s1 s2 st : run (s1 ++ s2) st = run s2 (run s1 st).
+Proof. revert st; induction s1; simpl; auto. Qed.
+
+Lemma run_inv (I : state -> Prop) :
+  (forall t st, I st -> I (step t st)) ->
+  forall sched st, I st -> I (run sched st).
+Proof. intros Hs sched. induction sched; simpl; auto. Qed.
+
+(** case analysis of one step of thread t: thread t's record becomes explicit, every
+    branch of [step] is exposed *)
+Ltac open_step t st Hth :=
+  let pr := fresh "pr" in let p := fresh "p" in let rg := fresh "rg" in
+  unfold step; destruct (threads st t) as [pr p rg] eqn:Hth;
+  destruct pr as [|[?r ?ok|] ?rest]; cbn [prog tpc reg];
+  [ | destruct p | destruct p ];
+  unfold goto; cbn [prog tpc reg];
+  repeat match goal with
+         | |- context [match ?x with _ => _ end] => destruct x eqn:?
+         end.
+
+Ltac split_thread t' t Hne :=
+  destruct (Nat.eq_dec t' t) as [->|Hne];
+  [rewrite ?upd_same|rewrite ?upd_other by exact Hne].
+
+(** * A. lock ownership = program point (mutual exclusion) *)
+
+Definition invA (st : state) : Prop :=
+  forall t, holds (threads st t) = true <-> lock st = Some t.
+
+Lemma invA_init nc progs : invA (init nc progs).
+Proof.
+  intros t. unfold init, holds; simpl. destruct (nth t progs []) as [|[]]; simpl;
+    split; discriminate.
+Qed.
+
+Lemma invA_step t st : invA st -> invA (step t st).
+Proof.
+  intros H. pose proof (H t) as Ht.
+  open_step t st Hth; try exact H; try rewrite Hth in Ht; cbn in Ht;
+  intros t'; cbn [threads lock]; pose proof (H t') as Ht';
+  split_thread t' t Hne; cbn; try solve [intuition congruence];
+  destruct rest as [|[? ?|] ?]; cbn; intuition congruence.
+Qed.
+
+(** * B. program point vs. store: between the membership test and the store nobody
+      else touches the dict *)
+Definition invB (st : state) : Prop :=
+  forall t r ok rest, prog (threads st t) = OGet r ok :: rest ->
+    match tpc (threads st t) with
+    | PLoad => store st (key_of r) <> None
+    | PCreateEnter | PCreateExit | PStore => store st (key_of r) = None
+    | _ => True
+    end.
+
+Lemma invB_init nc progs : invB (init nc progs).
+Proof. intros t r ok rest _. exact I. Qed.
+
+Lemma invB_step t st : invA st -> invB st -> invB (step t st).
+Proof.
+  intros HA H. pose proof (HA t) as At. pose proof (H t) as Ht.
+  open_step t st Hth; try exact H; try rewrite Hth in *; cbn in At, Ht;
+  intros t' r' ok' rest'; cbn [threads store];
+  pose proof (H t' r' ok' rest') as Ht'; pose proof (HA t') as At';
+  split_thread t' t Hne; cbn [prog tpc reg]; try exact Ht';
+  try (intros E; inversion E; subst; specialize (Ht _ _ _ eq_refl); cbn;
+       solve [ exact I | congruence | assumption ]).
+  all: try (intros E; destruct (threads st t') as [pr' p' rg'] eqn:Hth'; cbn in *; subst;
+            destruct p'; cbn in *; try exact I; exfalso; intuition congruence).
+  all: intros; exact I.
+Qed.
+
+(** * N. with caching enabled nobody is on the no-cache path *)
+Definition invN (st : state) : Prop :=
+  nocache st = false /\
+  forall t, tpc (threads st t) <> PNcEnter /\ tpc (threads st t) <> PNcExit.
+
+Lemma invN_init progs : invN (init false progs).
+Proof. split; [reflexivity|]. intros t; cbn. split; discriminate. Qed.
+
+Lemma invN_step t st : invN st -> invN (step t st).
+Proof.
+  intros [Hn H]. pose proof (H t) as Ht.
+  open_step t st Hth; try (split; assumption); try rewrite Hth in *; cbn in Ht;
+  try congruence; try tauto;
+  (split; [exact Hn|]); intros t'; cbn [threads]; pose proof (H t') as Ht';
+  split_thread t' t Hne; cbn [tpc]; try exact Ht'; split; discriminate.
+Qed.
+
+(** * C2. every object handed out under the lock in the current epoch is the stored one *)
+Definition invC2 (st : state) : Prop :=
+  forall k o, In o (got_for k (since_clear (log st))) -> store st k = Some o.
+
+Lemma invC2_init nc progs : invC2 (init nc progs).
+Proof. intros k o []. Qed.
+
+Lemma invC2_step t st : invB st -> invC2 st -> invC2 (step t st).
+Proof.
+  intros HB H. pose proof (HB t) as Bt.
+  open_step t st Hth; try exact H; try rewrite Hth in *; cbn in Bt;
+  try specialize (Bt _ _ _ eq_refl);
+  intros k o'; cbn [log store since_clear is_clear got_for]; try exact (H k o').
+  - destruct (String.eqb_spec (key_of r) k) as [<-|Hk]; [|exact (H k o')].
+    intros [<-|Hi]; [assumption|exact (H _ _ Hi)].
+  - unfold supd. destruct (String.eqb_spec (key_of r) k) as [<-|Hk].
+    + rewrite String.eqb_refl. intros [<-|Hi]; [reflexivity|].
+      apply H in Hi. congruence.
+    + apply String.eqb_neq in Hk. rewrite String.eqb_sym, Hk. exact (H k o').
+  - intros [].
+Qed.
+
+(** * C1. single flight: the objects created for k in the current epoch are exactly the
+      stored one, or the one its creator (still holding the lock) is about to store *)
+Definition pend_th (th : thread) (k : key) : list obj :=
+  match tpc th with
+  | PStore => match prog th, reg th with
+              | OGet r _ :: _, Some o => if String.eqb (key_of r) k then [o] else []
+              | _, _ => []
+              end
+  | _ => []
+  end.
+
+Definition pending (st : state) (k : key) : list obj :=
+  match lock st with
+  | Some t => pend_th (threads st t) k
+  | None => []
+  end.
+
+Definition invC1 (st : state) : Prop :=
+  forall k, created_for k (since_clear (log st))
+            = match store st k with Some o => [o] | None => pending st k end.
+
+Lemma invC1_init nc progs : invC1 (init nc progs).
+Proof. intros k. reflexivity. Qed.
+
+Lemma invC1_step t st : invA st -> invB st -> invN st -> invC1 st -> invC1 (step t st).
+Proof.
+  intros HA HB [Hnc HN] H. pose proof (HA t) as At. pose proof (HB t) as Bt.
+  pose proof (HN t) as Nt.
+  open_step t st Hth; try exact H; try rewrite Hth in *; cbn in At, Bt, Nt;
+  try specialize (Bt _ _ _ eq_refl); try congruence; try tauto;
+  intros k; pose proof (H k) as Hk; unfold pending in *;
+  cbn [log store lock threads since_clear is_clear created_for];
+  try reflexivity;
+  first [ assert (Hl : lock st = Some t) by (apply At; reflexivity);
+          rewrite ?Hl in *; rewrite ?upd_same; rewrite ?Hth in Hk;
+          cbn [pend_th tpc prog reg] in *
+        | idtac ];
+  try exact Hk.
+  all: try (destruct (lock st) as [t0|] eqn:Hl0; [|exact Hk];
+            assert (t0 <> t) by (intros ->; destruct At as [_ At']; discriminate (At' eq_refl));
+            rewrite upd_other by assumption; exact Hk).
+  all: try (match goal with E : lock _ = None |- _ => rewrite E in Hk end;
+            rewrite upd_same; cbn [pend_th tpc]; exact Hk).
+  - destruct (String.eqb_spec (key_of r) k) as [E|Hne]; [subst k|exact Hk].
+    rewrite Bt in *. rewrite Hk. reflexivity.
+  - unfold supd. destruct (String.eqb_spec (key_of r) k) as [E|Hne]; [subst k|].
+    + rewrite String.eqb_refl in *. rewrite Bt in Hk. exact Hk.
+    + apply String.eqb_neq in Hne. rewrite String.eqb_sym, Hne. exact Hk.
+  - reflexivity.
+Qed.
+
+(** * D. creators return fresh objects *)
+Definition invD (st : state) : Prop :=
+  Forall (fun o => (o < next st)%Z) (all_created (log st)) /\ NoDup (all_created (log st)).
+
+Lemma invD_init nc progs : invD (init nc progs).
+Proof. split; constructor. Qed.
+
+Lemma Forall_lt_weaken l n : Forall (fun o => (o < n)%Z) l -> Forall (fun o => (o < n + 1)%Z) l.
+Proof. intros H. eapply Forall_impl; [|exact H]. cbn. intros; lia. Qed.
+
+Lemma invD_step t st : invD st -> invD (step t st).
+Proof.
+  intros [HF HN].
+  open_step t st Hth; try (split; assumption); unfold invD; cbn [log next all_created];
+  try (split; assumption);
+  (split; [constructor; [lia|apply Forall_lt_weaken; exact HF]
+          |constructor; [|exact HN]; intros Hin;
+           rewrite Forall_forall in HF; apply HF in Hin; lia]).
+Qed.
+
+(** * E. what a look-up returns is what it obtained under the lock *)
+Definition got_ev (t : tid) (r : req) (o : obj) (l : list event) : Prop :=
+  In (ELoad t r o) l \/ In (EStore t r o) l.
+
+Lemma got_ev_cons e t r o l : got_ev t r o l -> got_ev t r o (e :: l).
+Proof. intros [H|H]; [left|right]; right; exact H. Qed.
+
+Definition invE (st : state) : Prop :=
+  (forall t r o, In (ERet t r o) (log st) -> got_ev t r o (log st)) /\
+  (forall t r ok rest o,
+      prog (threads st t) = OGet r ok :: rest -> reg (threads st t) = Some o ->
+      tpc (threads st t) = PRelease \/ tpc (threads st t) = PReturn ->
+      got_ev t r o (log st)).
+
+Lemma invE_init nc progs : invE (init nc progs).
+Proof. split; [intros ? ? ? []|]. intros t r ok rest o _ H. discriminate. Qed.
+
+Lemma invE_step t st : invN st -> invE st -> invE (step t st).
+Proof.
+  intros [Hnc HN] [H1 H2]. pose proof (HN t) as Nt. pose proof (H2 t) as Et.
+  open_step t st Hth; try (split; assumption); try rewrite Hth in *; cbn in Nt, Et;
+  try congruence; try tauto;
+  (split;
+   [ intros t' r' o'; cbn [log]; intros Hin;
+     try (destruct Hin as [Hin|Hin]; [try discriminate|]);
+     try (apply got_ev_cons); try (apply H1; exact Hin)
+   | intros t' r' ok' rest' o'; cbn [log threads]; pose proof (H2 t' r' ok' rest' o') as Et';
+     split_thread t' t Hne; cbn [prog tpc reg];
+     try (intros; apply got_ev_cons; apply Et'; assumption);
+     try exact Et';
+     try (intros E1 E2 [E3|E3]; discriminate) ]).
+  - intros E1 E2 _. inversion E1; inversion E2; subst. left; left; reflexivity.
+  - intros E1 E2 _. inversion E1; inversion E2; subst. right; left; reflexivity.
+  - intros E1 E2 _. inversion E1; subst. apply got_ev_cons.
+    apply (Et _ _ _ _ eq_refl eq_refl). left; reflexivity.
+  - inversion Hin; subst. apply (Et _ _ _ _ eq_refl eq_refl). right; reflexivity.
+Qed.
+
+(** * H. provenance: whatever is stored, held or returned for key k was made by a creator
+      invoked for a request with that key (both modes) *)
+Definition made (k : key) (o : obj) (l : list event) : Prop :=
+  exists t' r', In (ECreated t' r' o) l /\ key_of r' = k.
+
+Lemma made_cons e k o l : made k o l -> made k o (e :: l).
+Proof. intros (t' & r' & H & E). exists t', r'. split; [right; exact H|exact E]. Qed.
+
+Definition invH (st : state) : Prop :=
+  (forall k o, store st k = Some o -> made k o (log st)) /\
+  (forall t r ok rest o,
+      prog (threads st t) = OGet r ok :: rest -> reg (threads st t) = Some o ->
+      made (key_of r) o (log st)) /\
+  (forall t r o, In (ERet t r o) (log st) -> made (key_of r) o (log st)).
+
+Lemma invH_init nc progs : invH (init nc progs).
+Proof.
+  split; [intros k o H; discriminate|]. split; [|intros ? ? ? []].
+  intros t r ok rest o _ H. discriminate.
+Qed.
+
+Lemma invH_step t st : invH st -> invH (step t st).
+Proof.
+  intros (H1 & H2 & H3). pose proof (H2 t) as Ht.
+  open_step t st Hth; try (repeat split; assumption); try rewrite Hth in *; cbn in Ht;
+  (split; [|split];
+  [ intros k' o'; cbn [store log]; intros Hs; try (apply made_cons); try (apply H1; exact Hs)
+  | intros t' r' ok' rest' o'; cbn [log threads]; pose proof (H2 t' r' ok' rest' o') as Ht';
+    split_thread t' t Hne; cbn [prog tpc reg];
+    try (intros; apply made_cons; apply Ht'; assumption); try exact Ht';
+    try (intros E1 E2; try apply made_cons; apply (Ht _ _ _ _ E1 E2));
+    try (intros E1 E2; discriminate)
+  | intros t' r' o'; cbn [log]; intros Hin;
+    try (destruct Hin as [Hin|Hin]; [try discriminate|]);
+    try (apply made_cons); try (eapply H3; exact Hin) ]).
+  - intros E1 E2. injection E1 as <- _ _. injection E2 as <-.
+    apply made_cons. apply H1. exact Heqo.
+  - intros E1 E2. injection E1 as <- _ _. injection E2 as <-.
+    exists t, r. split; [left; reflexivity|reflexivity].
+  - unfold supd in Hs. destruct (String.eqb_spec k' (key_of r)) as [->|Hne].
+    + injection Hs as <-. apply (Ht _ _ _ _ eq_refl eq_refl).
+    + apply H1. exact Hs.
+  - injection Hin as <- <- <-. apply (Ht _ _ _ _ eq_refl eq_refl).
+  - intros E1 E2. injection E1 as <- _ _. injection E2 as <-.
+    exists t, r. split; [left; reflexivity|reflexivity].
+  - discriminate.
+Qed.
+
+(** * P. every request seen in the log comes from the programs *)
+Definition op_sat (P : req -> bool) (o : op) : Prop :=
+  match o with OGet r _ => P r = true | OClear => True end.
+
+Definition invP (P : req -> bool) (st : state) : Prop :=
+  (forall t, Forall (op_sat P) (prog (threads st t))) /\
+  (forall t r o, In (ECreated t r o) (log st) -> P r = true) /\
+  (forall t r o, In (ERet t r o) (log st) -> P r = true).
+
+Lemma invP_init P nc progs :
+  Forall (Forall (op_sat P)) progs -> invP P (init nc progs).
+Proof.
+  intros H. split; [|split; intros ? ? ? []].
+  intros t. cbn. rewrite Forall_forall in H.
+  destruct (Nat.lt_ge_cases t (length progs)) as [L|L].
+  - apply H. apply nth_In. exact L.
+  - rewrite nth_overflow by exact L. constructor.
+Qed.
+
+Lemma invP_step P t st : invP P st -> invP P (step t st).
+Proof.
+  intros (H1 & H2 & H3). pose proof (H1 t) as Ht.
+  open_step t st Hth; try (repeat split; assumption); try rewrite Hth in *; cbn in Ht;
+  inversion Ht as [|? ? Hop Hrest]; subst; cbn in Hop;
+  (split; [|split];
+  [ intros t'; cbn [threads]; split_thread t' t Hne; cbn [prog]; auto
+  | intros t' r' o'; cbn [log]; intros Hin;
+    try (destruct Hin as [Hin|Hin]; [try discriminate|]);
+    try (eapply H2; exact Hin); try (injection Hin as <- <- <-; exact Hop)
+  | intros t' r' o'; cbn [log]; intros Hin;
+    try (destruct Hin as [Hin|Hin]; [try discriminate|]);
+    try (eapply H3; exact Hin); try (injection Hin as <- <- <-; exact Hop) ]).
+  all: rewrite Hth; exact Ht.
+Qed.
+
+(** * G. outcomes: a look-up returns iff the creator for its key succeeds (both modes),
+      when what a creator does is a function [okf] of the key *)
+Definition invG (okf : key -> bool) (st : state) : Prop :=
+  (forall t, Forall (fun o => op_ok okf o = true) (prog (threads st t))) /\
+  (forall k o, store st k = Some o -> okf k = true) /\
+  (forall t r ok rest, prog (threads st t) = OGet r ok :: rest ->
+      match tpc (threads st t) with
+      | PStore | PRelease | PReturn => okf (key_of r) = true
+      | PReleaseExc | PRaise => okf (key_of r) = false
+      | _ => True
+      end) /\
+  (forall t r o, In (ERet t r o) (log st) -> okf (key_of r) = true) /\
+  (forall t r, In (ERaise t r) (log st) -> okf (key_of r) = false).
+
+Lemma invG_init okf nc progs :
+  Forall (Forall (fun o => op_ok okf o = true)) progs -> invG okf (init nc progs).
+Proof.
+  intros H. split; [|split; [|split; [|split]]].
+  - intros t. cbn. rewrite Forall_forall in H.
+    destruct (Nat.lt_ge_cases t (length progs)) as [L|L].
+    + apply H. apply nth_In. exact L.
+    + rewrite nth_overflow by exact L. constructor.
+  - intros k o E; discriminate.
+  - intros t r ok rest _. exact I.
+  - intros ? ? ? [].
+  - intros ? ? [].
+Qed.
+
+Lemma invG_step okf t st : invB st -> invG okf st -> invG okf (step t st).
+Proof.
+  intros HB (H1 & H2 & H3 & H4 & H5). pose proof (HB t) as Bt.
+  pose proof (H1 t) as Ft. pose proof (H3 t) as Gt.
+  open_step t st Hth; try (repeat split; assumption); try rewrite Hth in *;
+  cbn in Bt, Gt, Ft; try specialize (Bt _ _ _ eq_refl); try specialize (Gt _ _ _ eq_refl);
+  try congruence;
+  inversion Ft as [|? ? Hop Hrest]; subst; unfold op_ok in Hop;
+  try (apply Bool.eqb_prop in Hop; symmetry in Hop);
+  (split; [|split; [|split; [|split]]];
+  [ intros t'; cbn [threads]; split_thread t' t Hne; cbn [prog]; auto
+  | intros k' o'; cbn [store]; intros Hs; try (eapply H2; exact Hs)
+  | intros t' r' ok' rest'; cbn [threads]; pose proof (H3 t' r' ok' rest') as Gt';
+    split_thread t' t Hne; cbn [prog tpc]; try exact Gt';
+    try (intros E1; injection E1 as <- <- <-; solve [exact I | assumption | congruence
+                                                    | eapply H2; eassumption])
+  | intros t' r' o'; cbn [log]; intros Hin;
+    try (destruct Hin as [Hin|Hin]; [try discriminate|]);
+    try (eapply H4; exact Hin); try (injection Hin as <- <- <-; assumption)
+  | intros t' r'; cbn [log]; intros Hin;
+    try (destruct Hin as [Hin|Hin]; [try discriminate|]);
+    try (eapply H5; exact Hin); try (injection Hin as <- <-; assumption) ]).
+  all: try (intros; exact I).
+  - unfold supd in Hs. destruct (String.eqb_spec k' (key_of r)) as [->|Hne];
+      [exact Gt|eapply H2; exact Hs].
+  - discriminate.
+Qed.
+
+(** * F. caching disabled: the dict is never written, every look-up calls its creator
+      exactly once and returns that call's object *)
+Definition inflight (th : thread) : nat :=
+  match prog th with
+  | OGet _ _ :: _ => match tpc th with PNcExit | PReturn | PRaise => 1 | _ => 0 end
+  | _ => 0
+  end.
+
+Definition nc_pc (th : thread) : Prop :=
+  match prog th with
+  | OGet _ _ :: _ =>
+      match tpc th with P0 | PNcEnter | PNcExit | PReturn | PRaise => True | _ => False end
+  | _ => True
+  end.
+
+Definition invF (st : state) : Prop :=
+  nocache st = true /\
+  (forall k, store st k = None) /\
+  (forall t, nc_pc (threads st t) /\
+             calls_by t (log st) = finished_by t (log st) + inflight (threads st t)) /\
+  (forall t r o, In (ERet t r o) (log st) -> In (ECreated t r o) (log st)) /\
+  (forall t r ok rest o, prog (threads st t) = OGet r ok :: rest ->
+      reg (threads st t) = Some o -> In (ECreated t r o) (log st)).
+
+Lemma invF_init progs : invF (init true progs).
+Proof.
+  split; [reflexivity|]. split; [reflexivity|]. split; [|split].
+  - intros t. unfold nc_pc, inflight; cbn. destruct (nth t progs []) as [|[]]; auto.
+  - intros ? ? ? [].
+  - intros t r ok rest o _ E. discriminate.
+Qed.
+
+Lemma invF_step t st : invF st -> invF (step t st).
+Proof.
+  intros (Hnc & Hs & H3 & H4 & H5). pose proof (H3 t) as [Pt Ct]. pose proof (H5 t) as Rt.
+  unfold nc_pc, inflight in Pt, Ct.
+  open_step t st Hth; try (repeat split; assumption); try rewrite Hth in *;
+  cbn in Pt, Ct, Rt; try contradiction; try congruence;
+  (split; [exact Hnc|split; [|split; [|split]]];
+  [ intros k'; cbn [store]; try apply Hs; try reflexivity
+  | intros t'; cbn [threads log calls_by finished_by]; pose proof (H3 t') as [Pt' Ct'];
+    split_thread t' t Hne; unfold nc_pc, inflight; cbn [prog tpc reg];
+    rewrite ?Nat.eqb_refl;
+    try (replace (Nat.eqb t t') with false by (symmetry; apply Nat.eqb_neq; congruence));
+    try (split; [exact Pt'|]; cbn; exact Ct')
+  | intros t' r' o'; cbn [log]; intros Hin;
+    try (destruct Hin as [Hin|Hin]; [try discriminate|]);
+    try (right; eapply H4; exact Hin); try (eapply H4; exact Hin)
+  | intros t' r' ok' rest' o'; cbn [log threads]; pose proof (H5 t' r' ok' rest' o') as Rt';
+    split_thread t' t Hne; cbn [prog tpc reg];
+    try (intros; right; apply Rt'; assumption); try exact Rt';
+    try (intros E1 E2; discriminate) ]).
+  all: try (split; [exact I|lia]).
+  all: try (destruct rest as [|[? ?|] ?]; cbn; split; try exact I; lia).
+  all: try (intros E1 E2; first [apply (Rt _ _ _ _ E1 E2) | right; apply (Rt _ _ _ _ E1 E2)]).
+  - injection Hin as <- <- <-. right. apply (Rt _ _ _ _ eq_refl eq_refl).
+  - intros E1 E2. injection E1 as <- _ _. injection E2 as <-. left; reflexivity.
+Qed.
+
+(** * Every schedule: the invariants hold in every reachable state *)
+Definition reach (nc : bool) (progs : list (list op)) (sched : list tid) : state :=
+  run sched (init nc progs).
+
+Lemma reach_AB nc progs sched :
+  invA (reach nc progs sched) /\ invB (reach nc progs sched).
+Proof.
+  unfold reach. apply (run_inv (fun st => invA st /\ invB st)).
+  - intros t st [A B]. split; [apply invA_step|apply invB_step]; assumption.
+  - split; [apply invA_init|apply invB_init].
+Qed.
+
+Lemma reach_cached progs sched :
+  let st := reach false progs sched in
+  invA st /\ invB st /\ invN st /\ invC1 st /\ invC2 st /\ invE st.
+Proof.
+  unfold reach.
+  apply (run_inv (fun st => invA st /\ invB st /\ invN st /\ invC1 st /\ invC2 st /\ invE st)).
+  - intros t st (A & B & N & C1 & C2 & E).
+    split; [|split; [|split; [|split; [|split]]]];
+      [apply invA_step|apply invB_step|apply invN_step|apply invC1_step|apply invC2_step
+      |apply invE_step]; assumption.
+  - split; [|split; [|split; [|split; [|split]]]];
+      [apply invA_init|apply invB_init|apply invN_init|apply invC1_init|apply invC2_init
+      |apply invE_init].
+Qed.
+
+Lemma reach_C2 nc progs sched : invC2 (reach nc progs sched).
+Proof.
+  unfold reach.
+  apply (run_inv (fun st => (invA st /\ invB st) /\ invC2 st)).
+  - intros t st [[A B] C]. split; [split|];
+      [apply invA_step|apply invB_step|apply invC2_step]; assumption.
+  - split; [split|]; [apply invA_init|apply invB_init|apply invC2_init].
+Qed.
+
+Lemma reach_D nc progs sched : invD (reach nc progs sched).
+Proof. unfold reach. apply (run_inv invD); [apply invD_step|apply invD_init]. Qed.
+
+Lemma reach_H nc progs sched : invH (reach nc progs sched).
+Proof. unfold reach. apply (run_inv invH); [apply invH_step|apply invH_init]. Qed.
+
+Lemma reach_P P nc progs sched :
+  Forall (Forall (op_sat P)) progs -> invP P (reach nc progs sched).
+Proof.
+  intros H. unfold reach. apply (run_inv (invP P)); [apply invP_step|apply invP_init, H].
+Qed.
+
+Lemma reach_G okf nc progs sched :
+  Forall (Forall (fun o => op_ok okf o = true)) progs -> invG okf (reach nc progs sched).
+Proof.
+  intros H. unfold reach.
+  apply (run_inv (fun st => (invA st /\ invB st) /\ invG okf st)).
+  - intros t st [[A B] G]. split; [split|];
+      [apply invA_step|apply invB_step|apply invG_step]; assumption.
+  - split; [split; [apply invA_init|apply invB_init]|apply invG_init, H].
+Qed.
+
+Lemma reach_F progs sched : invF (reach true progs sched).
+Proof. unfold reach. apply (run_inv invF); [apply invF_step|apply invF_init]. Qed.
+
+(** * The statements used by Props/C13.v *)
+
+Lemma mutex nc progs sched t1 t2 :
+  let st := reach nc progs sched in
+  holds (threads st t1) = true -> holds (threads st t2) = true -> t1 = t2.
+Proof.
+  intros st H1 H2. destruct (reach_AB nc progs sched) as [A _].
+  apply A in H1. apply A in H2. fold st in H1, H2. congruence.
+Qed.
+
+Lemma lock_owner nc progs sched t :
+  let st := reach nc progs sched in
+  lock st = Some t <-> holds (threads st t) = true.
+Proof. intros st. destruct (reach_AB nc progs sched) as [A _]. symmetry. apply A. Qed.
+
+Lemma single_flight progs sched k :
+  length (created_for k (since_clear (log (reach false progs sched)))) <= 1.
+Proof.
+  destruct (reach_cached progs sched) as (_ & _ & _ & C1 & _).
+  rewrite (C1 k). destruct (store _ k); [cbn; lia|].
+  unfold pending. destruct (lock _); [|cbn; lia].
+  unfold pend_th. destruct (tpc _); cbn; try lia.
+  destruct (prog _) as [|[r ok|] ?]; cbn; try lia.
+  destruct (reg _); cbn; try lia. destruct (String.eqb _ _); cbn; lia.
+Qed.
+
+Lemma stored_is_the_created_one progs sched k o :
+  let st := reach false progs sched in
+  store st k = Some o -> created_for k (since_clear (log st)) = [o].
+Proof.
+  intros st Hs. destruct (reach_cached progs sched) as (_ & _ & _ & C1 & _).
+  fold st in C1. rewrite (C1 k), Hs. reflexivity.
+Qed.
+
+Lemma no_recreate_while_stored nc progs sched t k :
+  let st := reach nc progs sched in
+  creating (threads st t) k = true -> store st k = None.
+Proof.
+  intros st H. destruct (reach_AB nc progs sched) as [_ B]. fold st in B.
+  specialize (B t). unfold creating in H.
+  destruct (threads st t) as [[|[r ok|] rest] p rg]; cbn in *; try discriminate.
+  specialize (B _ _ _ eq_refl).
+  destruct p; try discriminate; apply String.eqb_eq in H; subst k; exact B.
+Qed.
+
+Lemma same_object nc progs sched k o :
+  let st := reach nc progs sched in
+  In o (got_for k (since_clear (log st))) -> store st k = Some o.
+Proof. intros st. apply (reach_C2 nc progs sched). Qed.
+
+Lemma same_object_pair nc progs sched k o1 o2 :
+  let l := since_clear (log (reach nc progs sched)) in
+  In o1 (got_for k l) -> In o2 (got_for k l) -> o1 = o2.
+Proof.
+  intros l H1 H2. apply (reach_C2 nc progs sched) in H1. apply (reach_C2 nc progs sched) in H2.
+  congruence.
+Qed.
+
+Lemma return_is_got progs sched t r o :
+  let st := reach false progs sched in
+  In (ERet t r o) (log st) -> got_ev t r o (log st).
+Proof.
+  intros st. destruct (reach_cached progs sched) as (_ & _ & _ & _ & _ & [E _]). apply E.
+Qed.
+
+Lemma failure_not_cached nc progs sched t r rest rg :
+  let st := reach nc progs sched in
+  threads st t = mkTh (OGet r false :: rest) PCreateExit rg ->
+  let st3 := step t (step t (step t st)) in
+  store (step t st) = store st /\ store st3 = store st /\ store st3 (key_of r) = None /\
+  lock st3 = None /\ threads st3 t = mkTh rest P0 None /\
+  log st3 = ERaise t r :: ERel t :: EFailed t r :: log st.
+Proof.
+  intros st Hth. destruct (reach_AB nc progs sched) as [_ B]. fold st in B.
+  pose proof (B t) as Bt. rewrite Hth in Bt. specialize (Bt _ _ _ eq_refl). cbn in Bt.
+  cbn zeta.
+  assert (E1 : step t st = mkSt (upd (threads st) t (mkTh (OGet r false :: rest) PReleaseExc rg))
+                                (store st) (lock st) (next st) (nocache st)
+                                (EFailed t r :: log st))
+    by (unfold step; rewrite Hth; reflexivity).
+  rewrite E1. set (st1 := mkSt _ _ _ _ _ _).
+  assert (T1 : threads st1 t = mkTh (OGet r false :: rest) PReleaseExc rg) by apply upd_same.
+  assert (E2 : step t st1 = mkSt (upd (threads st1) t (mkTh (OGet r false :: rest) PRaise rg))
+                                 (store st1) None (next st1) (nocache st1)
+                                 (ERel t :: log st1))
+    by (unfold step; rewrite T1; reflexivity).
+  rewrite E2. set (st2 := mkSt _ _ _ _ _ _).
+  assert (T2 : threads st2 t = mkTh (OGet r false :: rest) PRaise rg) by apply upd_same.
+  assert (E3 : step t st2 = mkSt (upd (threads st2) t (mkTh rest P0 None))
+                                 (store st2) (lock st2) (next st2) (nocache st2)
+                                 (ERaise t r :: log st2))
+    by (unfold step; rewrite T2; reflexivity).
+  rewrite E3. cbn [store lock threads log]. rewrite upd_same.
+  repeat split; assumption.
+Qed.
+
+Lemma raising_thread_holds_no_lock nc progs sched t :
+  let st := reach nc progs sched in
+  tpc (threads st t) = PRaise -> lock st <> Some t.
+Proof.
+  intros st H L. apply (lock_owner nc progs sched t) in L. fold st in L.
+  unfold holds in L. rewrite H in L. destruct (prog _) as [|[]]; discriminate.
+Qed.
+
+Lemma miss_calls_creator st t r ok rest rg :
+  threads st t = mkTh (OGet r ok :: rest) PIfContains rg ->
+  store st (key_of r) = None ->
+  tpc (threads (step t st) t) = PCreateEnter /\
+  log (step t (step t st)) = ECall t r :: log st.
+Proof.
+  intros Hth Hs. unfold step at 1 3. rewrite Hth. cbn [prog tpc reg]. rewrite Hs.
+  unfold goto. cbn [prog tpc reg threads]. rewrite upd_same. split; [reflexivity|].
+  unfold step. cbn [threads]. rewrite upd_same. reflexivity.
+Qed.
+
+Lemma clear_empties st t rest rg :
+  threads st t = mkTh (OClear :: rest) PClearAll rg ->
+  forall k, store (step t st) k = None /\
+            created_for k (since_clear (log (step t st))) = [] /\
+            got_for k (since_clear (log (step t st))) = [].
+Proof. intros Hth k. unfold step. rewrite Hth. cbn. auto. Qed.
+
+Lemma fresh_objects nc progs sched : NoDup (all_created (log (reach nc progs sched))).
+Proof. apply reach_D. Qed.
+
+Lemma no_cache_never_stores progs sched k : store (reach true progs sched) k = None.
+Proof. destruct (reach_F progs sched) as (_ & S & _). apply S. Qed.
+
+Lemma no_cache_calls_every_time progs sched t :
+  let st := reach true progs sched in
+  calls_by t (log st) = finished_by t (log st) + inflight (threads st t).
+Proof. intros st. destruct (reach_F progs sched) as (_ & _ & H & _). apply H. Qed.
+
+Lemma no_cache_returns_own_creation progs sched t r o :
+  let st := reach true progs sched in
+  In (ERet t r o) (log st) -> In (ECreated t r o) (log st).
+Proof. intros st. destruct (reach_F progs sched) as (_ & _ & _ & H & _). apply H. Qed.
+
+Lemma outcome_is_the_creators okf nc progs sched :
+  Forall (Forall (fun o => op_ok okf o = true)) progs ->
+  let st := reach nc progs sched in
+  (forall t r o, In (ERet t r o) (log st) -> okf (key_of r) = true) /\
+  (forall t r, In (ERaise t r) (log st) -> okf (key_of r) = false).
+Proof.
+  intros H st. destruct (reach_G okf nc progs sched H) as (_ & _ & _ & R & X).
+  split; assumption.
+Qed.
+
+Lemma returned_object_made_for_key nc progs sched t r o :
+  let st := reach nc progs sched in
+  In (ERet t r o) (log st) ->
+  exists t' r', In (ECreated t' r' o) (log st) /\ key_of r' = key_of r.
+Proof. intros st. destruct (reach_H nc progs sched) as (_ & _ & H). apply H. Qed.
+
+Lemma no_cross_talk_partial P nc progs sched t r o :
+  key_inj_on P -> Forall (Forall (op_sat P)) progs ->
+  let st := reach nc progs sched in
+  In (ERet t r o) (log st) ->
+  exists t' r', In (ECreated t' r' o) (log st) /\ norm_req r' = norm_req r.
+Proof.
+  intros Hinj HP st Hin.
+  destruct (returned_object_made_for_key nc progs sched t r o Hin) as (t' & r' & Hc & Hk).
+  destruct (reach_P P nc progs sched HP) as (_ & Pc & Pr).
+  exists t', r'. split; [exact Hc|]. apply Hinj; [eapply Pc; exact Hc|eapply Pr; exact Hin|exact Hk].
+Qed.
+
+Definition collide_progs : list (list op) :=
+  [[OGet (Some "/x", "a+b") true; OGet (Some "/x+a", "b") true]].
+Definition collide_sched : list tid := repeat 0 15.
+
+Lemma no_cross_talk_refuted :
+  exists progs sched t r o,
+    let st := reach false progs sched in
+    In (ERet t r o) (log st) /\
+    forall t' r', In (ECreated t' r' o) (log st) -> norm_req r' <> norm_req r.
+Proof.
+  exists collide_progs, collide_sched, 0, (Some "/x+a", "b"), 0%Z.
+  vm_compute. split; [left; reflexivity|].
+  intros t' r' H. repeat (destruct H as [H|H]; [try discriminate|]); [|contradiction].
+  injection H as <- <-. discriminate.
+Qed.
